@@ -3,14 +3,18 @@ import itertools, random
 from .. import core, hist, world as W
 from .c01 import handles_ok, fix_disagreements
 
-MODULES = ['DsdVerif.Props.C04']
-GEN_FILES = ['PyExprs']
+MODULES = ['DsdVerif.Props.C04', 'DsdVerif.Props.PyDomain']
+GEN_FILES = ['PyExprs', 'PyDomain', 'PySingleton']
 THEOREM_NAMES = ['domwf_init', 'domwf_request', 'domwf_drop', 'domwf_invert', 'complement_lengths_agree', 'conflict_raises',
                  'invert_involutive', 'dtype_rule', 'dtype_default_lengths', 'dtype_length_contradiction',
                  # the full model of DomainS.identifiers with its nested requests and temporary objects (Model/DomainFull.lean)
                  'domainRequestFullT_eq', 'domainRequestFull_eq', 'domainRequestFull_eq_of_lt', 'no_trace_of_temporaries', 'no_trace_objs',
                  'domwf_requestFull']
-THEOREMS = ['Dsd.C04.' + t for t in THEOREM_NAMES] + ['Dsd.PyExprs.py_dtype_eq_model']
+THEOREMS = ['Dsd.C04.' + t for t in THEOREM_NAMES] + ['Dsd.PyExprs.py_dtype_eq_model'] + \
+    ['Dsd.PyDomain.' + t for t in (
+        # DomainS.identifiers as written in the source (translator/pydomain.py -> Gen/PyDomain.lean; the nested `cls(...)` requests are a
+        # parameter). PARTIAL: its equality with Model/DomainFull is not proved yet; what is proved is the refusal clause and a kernel-checked history
+        'py_identifiers_dtype_length_contradiction', 'model_refuses_same', 'history_with_temporaries')]
 ASSUMPTIONS = [
     'DomainS.identifiers is hand-modelled by its net effect (Model/Objects.lean: domainRequest); the temporary complement objects it '
     'creates and drops are modelled separately (Model/DomainFull.lean) and proved to have this net effect (Props/C04Full.lean)',
@@ -30,6 +34,7 @@ MANIFEST = {
             'exhaustive histories over names {a, a*, auto}, lengths, dtypes and three class-setting variants plus random histories; '
             'the invariant is also checked directly on the real registry after every step.',
     'note': 'DomainS.dtype is translated from the source on every run and proved equal to the model\'s dtypeOf (py_dtype_eq_model). trusted base as in DESIGN.md 3.',
+    'source_derived': "FROM THE SOURCE, PARTIAL (since batch 8): translator/pydomain.py transcribes DomainS.identifiers statement by statement from the working tree (Gen/PyDomain.lean; the nested cls(...) requests are a parameter, temporaries die when consumed as in Model/DomainFull); its equality with the statement-level model is NOT proved yet - proved are PyDomain.py_identifiers_dtype_length_contradiction (a contradictory dtype and length raises ObjectInitError before any nested request, for every request parameter, the class unchanged), model_refuses_same and the kernel-checked history_with_temporaries; the whole translated request (translated identifiers + translated Singleton.__call__ tied by a hand-written recursion in DriverDomain.lean) is executed against the real class after every step of C04's op alphabet (stream DomainS.request.source-derived, 24 000 steps per quick run).",
     'technique': 'Lean 4 invariant proof over histories of the domain registry; correspondence check on histories',
 }
 
@@ -201,6 +206,10 @@ def run(res, proof):
             fix_disagreements(res, lines, impl, model)
     except core.DriverBroken as e:
         proof.problem('driver', str(e))
+    # DomainS(...) as translated from the working tree (identifiers: Gen/PyDomain.lean, Singleton.__call__: Gen/PySingleton.lean, tied by a
+    # hand-written fuel-bounded recursion in DriverDomain.lean) against the real class on the same op alphabet, after every step
+    from .pydomain_stream import source_derived_pydomain
+    source_derived_pydomain(res, proof)
 
 
 def replay(body, repo):
